@@ -774,3 +774,130 @@ start :: fn do
     print(a)
 end
 ''', {"a": (0, 9)})
+
+T("compound_assign_all", "compound-assignment-operators", '''
+B :: blob {
+    s: str,
+    n: int,
+}
+start :: fn do
+    s := "ab"
+    s += ?t:str
+    print(s)
+    s += "cd"
+    print(s)
+    n := ?a
+    n -= 3
+    n *= 2
+    n += 1
+    print(n)
+    x := 8.0
+    x /= 2.0
+    x -= 0.5
+    print(x)
+    t := (?a, 2)
+    t += (1, 1)
+    t -= (0, ?b)
+    t *= (2, 3)
+    print(t)
+    b := B { s: "foo", n: ?b }
+    b.s += "bar"
+    b.n -= 1
+    b.n *= 3
+    print(b.s)
+    print(b.n)
+end
+''', {"a": (0, 9), "b": (0, 9)})
+
+T("global_only_in_loop_condition", "global-initialised-before-use(loop condition)", '''
+start :: fn do
+    i := 0
+    total := 0
+    loop i < limit do
+        i += 1
+        total += i
+    end
+    print(total)
+    if flag do print("flag") end
+    print(name + "!")
+end
+limit :: ?a
+flag :: ?a > 1
+name :: "n" + as_str(limit)
+''', {"a": (0, 3)})
+
+T("globals_declared_after_use", "global-initialised-before-use(every position)", '''
+start :: fn do
+    print(helper(1))
+    print(tup[1] + lst_len())
+    b := Bl { f: base }
+    print(b.f)
+end
+helper :: fn k: int -> int do
+    ret k + base * scale
+end
+lst_len :: fn -> int do ret list.len(lst) end
+tup :: (base, base + 1)
+lst :: [base, scale]
+scale :: 10
+base :: ?a
+Bl :: blob {
+    f: int,
+}
+''', {"a": (0, 9)})
+
+
+# ------------------------------------------------------------------ a global used at exactly one position, declared after its user
+USE_POSITIONS = [
+    ("loop_condition", "i := 0\n    loop i < G do\n        i += 1\n    end\n    print(i)"),
+    ("if_condition", "if G > 1 do print(\"big\") else print(\"small\") end"),
+    ("elif_condition", "if false do print(\"no\") elif G > 1 do print(\"big\") else print(\"small\") end"),
+    ("operand", "print(1 + G)"),
+    ("call_argument", "print(id(G))"),
+    ("tuple_element", "print((1, G))"),
+    ("list_element", "print([G, 2])"),
+    ("blob_field", "b := Bl { f: G }\n    print(b.f)"),
+    ("variant_payload", "print(En.A G)"),
+    ("case_scrutinee", "case En.A G do\n        A x -> print(x) end\n        else print(\"else\") end\n    end"),
+    ("assignment_value", "x := 0\n    x = G\n    print(x)"),
+    ("compound_value", "x := 1\n    x += G\n    print(x)"),
+    ("return_value", "print(fn -> int do ret G end())"),
+    ("closure_body", "f :: fn -> int do G + 1 end\n    print(f())"),
+    ("nested_closure_body", "f :: fn -> fn -> int do ret fn -> int do ret G end end\n    print(f()())"),
+    ("loop_body", "i := 0\n    loop i < 2 do\n        i += 1\n        print(G)\n    end"),
+    ("unary", "print(-G)"),
+    ("comparison", "print(G == 2)"),
+    ("assert_eq", "G <=> G\n    print(\"ok\")"),
+    ("index_base", "print((G, 1)[0])"),
+    ("block", "do\n        print(G)\n    end"),
+    ("and_or", "print(G > 0 and G < 3)"),
+    ("if_branch_value", "print(if true do G else 0 end)"),
+    ("definition_value", "y :: G * 2\n    print(y)"),
+]
+USE_PROGRAM = '''
+start :: fn do
+    USE
+end
+id :: fn v: int -> int do ret v end
+Bl :: blob {
+    f: int,
+}
+En :: enum
+    A int,
+    B,
+end
+G :: ?a
+'''
+for _n, _u in USE_POSITIONS:
+    T("global_use_" + _n, "global-initialised-before-use(%s)" % _n, USE_PROGRAM.replace("USE", _u.replace("G", "glob")).replace("G ::", "glob ::"), {"a": (0, 3)}, tags=("global_use",))
+
+WRITE_PROGRAM = '''
+start :: fn do
+    USE
+    print(glob)
+end
+glob := ?a
+'''
+for _n, _u in [("assignment_target", "glob = 5"), ("compound_target", "glob += 5"), ("target_in_loop", "i := 0\n    loop i < 2 do\n        i += 1\n        glob = glob + i\n    end"),
+               ("target_in_closure", "f :: fn do glob = 7 end\n    f()"), ("target_in_branch", "if true do glob = 9 end")]:
+    T("global_write_" + _n, "global-initialised-before-assignment(%s)" % _n, WRITE_PROGRAM.replace("USE", _u), {"a": (0, 3)}, tags=("global_use",))
